@@ -238,12 +238,15 @@ type cmap4 []cmapEntry16
 
 func newCmap4(cm tables.CmapSubtable4) (cmap4, error) {
 	segCount := len(cm.EndCode)
-	out := make(cmap4, segCount)
-	for i := range out {
+	out := make(cmap4, 0, segCount)
+	for i := 0; i < segCount; i++ {
 		entry := cmapEntry16{
 			end:   cm.EndCode[i],
 			start: cm.StartCode[i],
 			delta: cm.IdDelta[i],
+		}
+		if entry.start > entry.end { // invalid segment, which maps no rune
+			continue
 		}
 		idRangeOffset := int(cm.IdRangeOffsets[i])
 
@@ -260,7 +263,7 @@ func newCmap4(cm tables.CmapSubtable4) (cmap4, error) {
 				entry.indexes[j] = tables.GlyphID(binary.BigEndian.Uint16(cm.GlyphIDArray[2*index:]))
 			}
 		}
-		out[i] = entry
+		out = append(out, entry)
 	}
 	return out, nil
 }
@@ -396,7 +399,25 @@ func (s cmap6or10) Lookup(r rune) (GID, bool) {
 
 type cmap12 []tables.SequentialMapGroup
 
-func newCmap12(cm tables.CmapSubtable12) cmap12 { return cm.Groups }
+func newCmap12(cm tables.CmapSubtable12) cmap12 { return sanitizeGroups(cm.Groups) }
+
+// sanitizeGroups removes the invalid groups with StartCharCode > EndCharCode,
+// which map no rune.
+func sanitizeGroups(groups []tables.SequentialMapGroup) []tables.SequentialMapGroup {
+	for i, group := range groups {
+		if group.StartCharCode > group.EndCharCode {
+			// uncommon case : copy the valid groups
+			out := append([]tables.SequentialMapGroup(nil), groups[:i]...)
+			for _, group := range groups[i+1:] {
+				if group.StartCharCode <= group.EndCharCode {
+					out = append(out, group)
+				}
+			}
+			return out
+		}
+	}
+	return groups
+}
 
 type cmap12Iter struct {
 	data cmap12
@@ -444,7 +465,7 @@ func (s cmap12) Lookup(r rune) (GID, bool) {
 
 type cmap13 []tables.SequentialMapGroup
 
-func newCmap13(cm tables.CmapSubtable13) cmap13 { return cm.Groups }
+func newCmap13(cm tables.CmapSubtable13) cmap13 { return sanitizeGroups(cm.Groups) }
 
 type cmap13Iter struct {
 	data cmap13
